@@ -165,3 +165,83 @@ func markReflect(w *wset, st *types.Struct, fresh bool, depth int) {
 func (f *Frame) lightAssumption() string {
 	return "frame: calls into leaf library packages (strings, fmt, os, time, encoding/*, crypto/*, net/http helpers, database/sql, ...; see leafPkgPrefixes) run module code only through methods of library-declared interfaces on the values they are given; the write sets of those methods are accounted for, except the 'heavy' ones whose closure dispatches dynamically (" + fmt.Sprint(f.heavyList) + "), which leaf library code is assumed never to call"
 }
+
+// extResultLocals: locals that only ever hold results of calls to functions outside the module
+// (e.g. the cancel function returned by context.WithTimeout): calling such a value runs library code.
+func extResultLocals(info *types.Info, body ast.Node) map[types.Object]bool {
+	good := map[types.Object]bool{}
+	bad := map[types.Object]bool{}
+	mark := func(id *ast.Ident, ext bool, define bool) {
+		var obj types.Object
+		if define {
+			obj = info.Defs[id]
+		}
+		if obj == nil {
+			obj = info.Uses[id]
+		}
+		if obj == nil {
+			return
+		}
+		if ext && !bad[obj] {
+			good[obj] = true
+			return
+		}
+		bad[obj] = true
+		delete(good, obj)
+	}
+	isExtCall := func(e ast.Expr) bool {
+		ce, ok := ast.Unparen(e).(*ast.CallExpr)
+		if !ok {
+			return false
+		}
+		var id *ast.Ident
+		switch fx := ast.Unparen(ce.Fun).(type) {
+		case *ast.Ident:
+			id = fx
+		case *ast.SelectorExpr:
+			id = fx.Sel
+		}
+		if id == nil {
+			return false
+		}
+		fn, ok := info.Uses[id].(*types.Func)
+		return ok && !inModule(fn.Pkg())
+	}
+	ast.Inspect(body, func(n ast.Node) bool {
+		switch x := n.(type) {
+		case *ast.AssignStmt:
+			if len(x.Rhs) == 1 {
+				ext := isExtCall(x.Rhs[0])
+				for _, l := range x.Lhs {
+					if id, ok := l.(*ast.Ident); ok && id.Name != "_" {
+						mark(id, ext, x.Tok == token.DEFINE)
+					}
+				}
+			} else {
+				for i, l := range x.Lhs {
+					if id, ok := l.(*ast.Ident); ok && id.Name != "_" {
+						mark(id, i < len(x.Rhs) && isExtCall(x.Rhs[i]), x.Tok == token.DEFINE)
+					}
+				}
+			}
+		case *ast.ValueSpec:
+			for i, id := range x.Names {
+				ext := false
+				if len(x.Values) == 1 && len(x.Names) > 1 {
+					ext = isExtCall(x.Values[0])
+				} else if i < len(x.Values) {
+					ext = isExtCall(x.Values[i])
+				}
+				mark(id, ext, true)
+			}
+		case *ast.RangeStmt:
+			for _, e := range []ast.Expr{x.Key, x.Value} {
+				if id, ok := e.(*ast.Ident); ok {
+					mark(id, false, x.Tok == token.DEFINE)
+				}
+			}
+		}
+		return true
+	})
+	return good
+}
